@@ -444,6 +444,36 @@ def h_model(p):
     return res
 
 
+def run_ops(spec):
+    """build the classes of one model in THIS interpreter and run its operations"""
+    res = {'ops': [], 'setup': None}
+    B = None
+    try:
+        B = build_env(spec) if spec['engine'] == 'env' else build(spec)
+    except BaseException as e:  # noqa
+        res['setup'] = err_info(e)
+    if B is not None:
+        root = B.types[spec['root']]
+        for op in spec['ops']:
+            if op['op'] == 'load':
+                res['ops'].append(outcome(lambda: do_load(spec, root, op['doc']), B))
+            elif op['op'] == 'roundtrip':
+                res['ops'].append(outcome(lambda: do_dump(spec, do_load(spec, root, op['doc']), op), B))
+            elif op['op'] == 'env':
+                res['ops'].append(outcome(lambda: do_env(root, op), B))
+            else:
+                raise ValueError(op)
+    return res
+
+
+def h_multi(p):
+    """several models one after the other in ONE interpreter (each with its own class objects)"""
+    for spec in p['specs']:
+        for k, v in (spec.get('environ') or {}).items():
+            os.environ[k] = v
+    return {'runs': [run_ops(spec) for spec in p['specs']]}
+
+
 def do_load(spec, root, doc):
     from dataclass_wizard import fromdict
     if spec.get('mixin'):
@@ -508,6 +538,8 @@ def handler(p):
         return h_lits(p)
     if k == 'model':
         return h_model(p)
+    if k == 'multi':
+        return h_multi(p)
     if k == 'builtins':
         return {'builtins': [n in BUILTIN_NAMES for n in p['names']]}
     raise ValueError(k)
